@@ -405,7 +405,25 @@ def gen_cases(ctx: core.Ctx) -> list[dict]:
         cases.append(decorate(rng, n, pairs, engine=eng(), tag="+".join(sorted(set(tags))) + ("+iso" if iso else "")))
         if len(cases) % 5 == 0:
             cases.append(explicit_threshold_variant(rng, cases[-1]))
+        if len(cases) % 7 == 0:
+            cases.append(fine_threshold_variant(rng, cases[-1]))
     return cases
+
+
+def fine_threshold_variant(rng, base):
+    """The same graph with probabilities and threshold squeezed into [1 - 1e-6, 1] (or into [0, 1e-6]): values that need more than
+    six decimals, as thresholds converted from large match weights do.  The order of all values, hence the thresholded graph, is unchanged."""
+    c = json.loads(json.dumps(base))
+    hi = rng.random() < 0.7
+    # at most 10 significant digits: both engines then read the inlined decimal literal as exactly this double
+    f = (lambda p: round(1.0 - (1.0 - p) * 1e-6, 10)) if hi else (lambda p: round(p * 1e-6, 10))
+    c["edges"] = [(a, b, f(p)) for a, b, p in c["edges"]]
+    c["thr"] = f(c["thr"])
+    if "thr_cluster" in c:
+        c["thr_cluster"] = f(c["thr_cluster"])
+    c["tag"] = base["tag"] + "+fine_thr"
+    c["shuffle"] = rng.randrange(1 << 30)
+    return c
 
 
 def explicit_threshold_variant(rng, base):
